@@ -137,12 +137,48 @@ def _flag_form_match(body, field):
     # value forms: unwrap_or(false) / == Some(true)
     sl = Slice(body, du)
     rets = [t for t in body.calls() if t.dest is not None and t.dest.l == 0 and not t.dest.p]
+    if not rets:
+        # the value comes back through moves (a combinator written out in the view): every source is `false` or such a call
+        from vlib.cond import bool_sources
+        src = bool_sources(du, 0)
+        if src and all((k == "const" and not o and not n) or (k == "call" and not n) for k, o, n in src):
+            rets = [o for k, o, n in src if k == "call"]
+            if len({t.callee.name for t in rets}) > 1: rets = []
     for t in rets:
         n = t.callee.name
         if n == "unwrap_or" and len(t.args) == 2 and t.args[1].is_const and t.args[1].cint() == 0: return True, "", read
-        if n in ("eq",) : return True, "", read
+        if n in ("eq",) and len(t.args) == 2:
+            from vlib.cfg import const_option_bool
+            ks = [const_option_bool(body, sl, a) for a in t.args]
+            if "T" in ks: return True, "", read
+            return False, "the flag is compared with %s, not with Some(true)" % [k for k in ks if k], read
         if n in ("is_some", "is_none", "unwrap_or_default", "unwrap"): return False, "the flag is evaluated with %s(): `%s: false` (or an absent member) is not distinguished from `true`" % (n, field), read
     return False, "no recognised evaluation of %s == Some(true)" % field, read
+
+
+def _flag_truth_table(body, field):
+    """evaluates the predicate abstractly on the four kinds of request it can meet: no request, the member absent, false, true (the
+    other members unknown). Returns (verdict, text): verdict True = the table is (false, false, false, true); False = a definite
+    entry differs (text names it); None = some entry could not be evaluated (the caller falls back to the shape rules)."""
+    from vlib import absval
+    cfg = Cfg(body); du = DefUse(body)
+    T = ("var", 1, (("int", 1),)); F = ("var", 1, (("int", 0),)); N = ("var", 0, ())
+    rows = [("no request", None, 0), ("%s absent" % field, N, 0), ("%s: false" % field, F, 0), ("%s: true" % field, T, 1)]
+    got = []
+    for label, fv, want in rows:
+        if fv is None: reqv = ("var", 0, ())
+        else:
+            r = absval.struct_value("Request", {field: fv})
+            if r is None: return None, "Request layout unknown"
+            reqv = ("var", 1, (("refto", r),))
+        c = absval.struct_value("Call", {"request": reqv})
+        if c is None: return None, "Call layout unknown"
+        rets = absval.eval_returns(cfg, du, {1: ("refto", c)})
+        if not rets or any(v is None or v[0] != "int" for v in rets): return None, "%s: not evaluated" % label
+        vals = sorted({v[1] for v in rets})
+        if vals != [want]: got.append("%s -> %s" % (label, "true" if vals == [1] else "false" if vals == [0] else "true or false"))
+    if got: return False, "; ".join(got)
+    return True, ""
 
 
 def r1_flag(cx, rule="C04.R1", only=None):
@@ -150,6 +186,11 @@ def r1_flag(cx, rule="C04.R1", only=None):
         if only and fn not in only: continue
         body = cx.mir.one("varlink", "<Call<'_> as CallTrait>::%s" % fn)
         cx.saw(body)
+        verdict, text = _flag_truth_table(body, field)
+        if verdict is not None:
+            cx.check(verdict, rule, "varlink:Call::%s:flag" % fn, body.sp, "%s() is not `request.%s == Some(true)`: %s" % (fn, field, text),
+                     note_ok="true iff request.%s == Some(true) (evaluated on: no request / absent / false / true)" % field)
+            continue
         ok, why, read = _flag_form_match(body, field)
         if not ok and not read:
             # combinator form: self.request.map_or(false, |r| <flag expression>)
